@@ -1288,6 +1288,11 @@ func (sc *serverConn) handleHeaderFrame(strm *Stream, fr *FrameHeader) error {
 
 				strm.contentLength = n
 				strm.hasContentLength = true
+			} else {
+				// A content-length that is not a number cannot equal the
+				// length of the body: the request is malformed (RFC 7540
+				// 8.1.2.6).
+				return NewResetStreamError(ProtocolError, "invalid content-length")
 			}
 			req.Header.AddBytesKV(k, v)
 		default:
